@@ -7,7 +7,8 @@
 (* when it validates the recorded trace (TraceDirectory).                    *)
 EXTENDS AkdProofGame, Json, TLC
 
-CONSTANTS MaxEpoch, MaxBatch, MaxPerEpoch, Export
+CONSTANTS MaxEpoch, MaxBatch, MaxPerEpoch, Export,
+          WithOther      \* TRUE: publishes of labels outside the modelled set are interleaved
 
 VARIABLE path
 
@@ -31,8 +32,16 @@ MCTombstone(x, cut) ==
   /\ Emit(act)
   /\ path' = Append(path, act)
 
+MCPublishOther ==
+  LET act == [op |-> "publish_other"] IN
+  /\ WithOther /\ epoch < MaxEpoch
+  /\ PublishOther
+  /\ Emit(act)
+  /\ path' = Append(path, act)
+
 MCNext ==
   \/ \E b \in Batches : MCPublish(b)
+  \/ MCPublishOther
   \/ \E x \in Labels, cut \in 0..MaxEpoch : MCTombstone(x, cut)
 
 MCSpec == MCInit /\ [][MCNext]_<<dvars, path>>
